@@ -161,13 +161,59 @@ def real_ops(centered: bool):
     return (functools.partial(T.fft2, centered=centered, normalized=True), functools.partial(T.ifft2, centered=centered, normalized=True))
 
 
-def problem(seed: int, shape, mask_kind="random", extra_dims=()):
-    """random float32 problem: S, y (masked), mask of shape (N, 1, [1,] H, W, 1)"""
+class _Hist:
+    """call histories on PERSISTENT instances (phase 3).
+
+    While `active`, `persist(tag, build)` hands every site check the module it built in the first step of the history
+    (with its recorder, events cleared) instead of a new one, and `problem()` follows the directive of the current step:
+
+      "fresh"   new tensor objects (the first step always is)
+      "refill"  the SAME S / y / mask tensor objects, their content replaced in place by a new problem
+      "remask"  the same objects; only the mask (and the k-space, re-masked in place from the same full data) changes
+      "clone"   new objects with the content of the previous step
+      "same"    the very same objects, unchanged (a repeated call)
+
+    A result that depends on anything but the content of the current arguments — a term memoised under the identity,
+    `id()`, `data_ptr()`, shape or device of an argument, a flag left on the instance — then differs from the reference
+    the check computes independently from the current content."""
+    active = False
+    step = 0
+    directive = "fresh"
+    models: dict = {}
+    slots: dict = {}
+    calls = 0
+
+    @classmethod
+    def begin(cls):
+        cls.active, cls.step, cls.directive, cls.models, cls.slots = True, 0, "fresh", {}, {}
+
+    @classmethod
+    def end(cls):
+        cls.active, cls.models, cls.slots = False, {}, {}
+
+    @classmethod
+    def next(cls, k, directive):
+        cls.step, cls.directive, cls.calls = k, directive, 0
+
+
+def persist(tag: str, build):
+    """`build() -> (module, recorder or None)`; one instance per history"""
+    if not _Hist.active:
+        return build()
+    if tag not in _Hist.models:
+        _Hist.models[tag] = build()
+    obj, rec = _Hist.models[tag]
+    if rec is not None:
+        rec.events = []
+    return obj, rec
+
+
+def _fresh_problem(seed: int, shape, mask_kind, extra_dims):
     n_, c_, h_, w_ = shape
     g = torch.Generator().manual_seed(seed)
     full = (n_, c_) + tuple(extra_dims) + (h_, w_)
     S = torch.randn(*full, 2, generator=g)
-    y = torch.randn(*full, 2, generator=g)
+    yfull = torch.randn(*full, 2, generator=g)
     mshape = (n_, 1) + tuple(1 for _ in extra_dims) + (h_, w_, 1)
     if mask_kind == "full":
         m = torch.ones(mshape, dtype=torch.bool)
@@ -175,8 +221,59 @@ def problem(seed: int, shape, mask_kind="random", extra_dims=()):
         m = torch.zeros(mshape, dtype=torch.bool)
     else:
         m = torch.rand(mshape, generator=g) < 0.5
-    y = torch.where(m == 0, ZERO, y)
-    return S, y, m, g
+    return S, yfull, m, g
+
+
+def problem(seed: int, shape, mask_kind="random", extra_dims=()):
+    """random float32 problem: S, y (masked), mask of shape (N, 1, [1,] H, W, 1)"""
+    if not _Hist.active:
+        S, yfull, m, g = _fresh_problem(seed, shape, mask_kind, extra_dims)
+        return S, torch.where(m == 0, ZERO, yfull), m, g
+    key = (tuple(shape), tuple(extra_dims), _Hist.calls)
+    _Hist.calls += 1
+    d, slot = _Hist.directive, _Hist.slots.get(key)
+    S2, yf2, m2, g = _fresh_problem(seed + 7919 * _Hist.step, shape, mask_kind, extra_dims)
+    if slot is None or d == "fresh":
+        slot = {"S": S2, "yfull": yf2, "m": m2, "y": torch.where(m2 == 0, ZERO, yf2)}
+    elif d == "refill":
+        slot["S"].copy_(S2)
+        slot["yfull"] = yf2
+        slot["m"].copy_(m2)
+        slot["y"].copy_(torch.where(m2 == 0, ZERO, yf2))
+    elif d == "remask":
+        slot["m"].copy_(m2)
+        slot["y"].copy_(torch.where(m2 == 0, ZERO, slot["yfull"]))
+    elif d == "clone":
+        slot = {"S": slot["S"].clone(), "yfull": slot["yfull"], "m": slot["m"].clone(), "y": slot["y"].clone()}
+    elif d != "same":
+        raise ValueError(d)
+    _Hist.slots[key] = slot
+    return slot["S"], slot["y"], slot["m"], g
+
+
+HISTORY_SCRIPTS = [
+    ["fresh", "refill", "remask", "same", "clone", "refill"],
+    ["fresh", "remask", "remask", "fresh", "refill"],
+    ["fresh", "same", "refill", "clone", "remask"],
+]
+
+
+def run_site_history(name: str, seed: int, centered: bool, script, mask_kinds=None):
+    """run one site check `len(script)` times on persistent instances -> (relations checked, fails, failing step)"""
+    fn = dict(SITE_CHECKS)[name]
+    total, fails = 0, []
+    _Hist.begin()
+    try:
+        for k, d in enumerate(script):
+            _Hist.next(k, d)
+            mk = (mask_kinds or ["random"] * len(script))[k]
+            n, f = fn(seed, centered, mk)
+            total += n
+            if f:
+                return total, [(key, f"[history step {k} of {script}: {d}] {what}") for key, what in f], k
+    finally:
+        _Hist.end()
+    return total, fails, None
 
 
 def ref_A(fop, x, S, m, dims=(2, 3)):
@@ -213,18 +310,23 @@ def site_vsharp(seed, centered, three_d=False, mask_kind="random"):
 
     torch.manual_seed(seed)
     fop, bop = real_ops(centered)
-    rec = Recorder(fop, bop)
+
+    def build():
+        rec = Recorder(fop, bop)
+        if three_d:
+            return VSharpNet3D(rec.forward_operator, rec.backward_operator, num_steps=2, num_steps_dc_gd=2, image_init=InitType.SENSE,
+                               no_parameter_sharing=False, initializer_channels=(2, 2, 4), initializer_dilations=(1, 1, 1),
+                               initializer_multiscale=1, auxiliary_steps=-1, unet_num_filters=2, unet_num_pool_layers=1), rec
+        return VSharpNet(rec.forward_operator, rec.backward_operator, num_steps=2, num_steps_dc_gd=2, image_init=InitType.SENSE,
+                         no_parameter_sharing=False, initializer_channels=(2, 2, 4), initializer_dilations=(1, 1, 1),
+                         initializer_multiscale=1, auxiliary_steps=-1, image_unet_num_filters=2, image_unet_num_pool_layers=2), rec
+
+    model, rec = persist("vsharp3d" if three_d else "vsharp", build)
     if three_d:
-        model = VSharpNet3D(rec.forward_operator, rec.backward_operator, num_steps=2, num_steps_dc_gd=2, image_init=InitType.SENSE,
-                            no_parameter_sharing=False, initializer_channels=(2, 2, 4), initializer_dilations=(1, 1, 1),
-                            initializer_multiscale=1, auxiliary_steps=-1, unet_num_filters=2, unet_num_pool_layers=1)
-        S, y, m, _ = problem(seed, (1, 2, 4, 4), mask_kind, extra_dims=(2,))
+        S, y, m, _ = problem(seed, (2, 2, 4, 4), mask_kind, extra_dims=(2,))
         dims, tag = (3, 4), "vsharp3d"
     else:
-        model = VSharpNet(rec.forward_operator, rec.backward_operator, num_steps=2, num_steps_dc_gd=2, image_init=InitType.SENSE,
-                          no_parameter_sharing=False, initializer_channels=(2, 2, 4), initializer_dilations=(1, 1, 1),
-                          initializer_multiscale=1, auxiliary_steps=-1, image_unet_num_filters=2, image_unet_num_pool_layers=2)
-        S, y, m, _ = problem(seed, (1, 2, 8, 8), mask_kind)
+        S, y, m, _ = problem(seed, (2, 2, 8, 8), mask_kind)
         dims, tag = (2, 3), "vsharp"
     with rec.patched("direct.nn.vsharp.vsharp"), torch.no_grad():
         model(y, S, m)
@@ -263,11 +365,15 @@ def site_varsplit(seed, centered, mask_kind="random"):
 
     torch.manual_seed(seed)
     fop, bop = real_ops(centered)
-    rec = Recorder(fop, bop)
-    model = MRIVarSplitNet(rec.forward_operator, rec.backward_operator, 2, 2, "sense", False, ModelName.UNET, True, None,
-                           image_unet_num_filters=2, image_unet_num_pool_layers=2)
+
+    def build():
+        rec = Recorder(fop, bop)
+        return MRIVarSplitNet(rec.forward_operator, rec.backward_operator, 2, 2, "sense", False, ModelName.UNET, True, None,
+                              image_unet_num_filters=2, image_unet_num_pool_layers=2), rec
+
+    model, rec = persist("varsplit", build)
     S, y, m, g = problem(seed, (2, 2, 8, 8), mask_kind)
-    scal = torch.tensor([0.5, 2.0]) if seed % 2 else None
+    scal = torch.tensor([0.5, 2.0]) if (seed + _Hist.step) % 2 else None
     with rec.patched("direct.nn.varsplitnet.varsplitnet"), torch.no_grad():
         model(y, S, m, scal)
     fails, n = [], 0
@@ -291,10 +397,14 @@ def site_iterdual(seed, centered, mask_kind="random"):
 
     torch.manual_seed(seed)
     fop, bop = real_ops(centered)
-    rec = Recorder(fop, bop)
-    model = IterDualNet(rec.forward_operator, rec.backward_operator, num_iter=2, image_unet_num_filters=2, image_unet_num_pool_layers=2,
-                        kspace_unet_num_filters=2, kspace_unet_num_pool_layers=2)
-    S, y, m, _ = problem(seed, (1, 2, 8, 8), mask_kind)
+
+    def build():
+        rec = Recorder(fop, bop)
+        return IterDualNet(rec.forward_operator, rec.backward_operator, num_iter=2, image_unet_num_filters=2, image_unet_num_pool_layers=2,
+                           kspace_unet_num_filters=2, kspace_unet_num_pool_layers=2), rec
+
+    model, rec = persist("iterdual", build)
+    S, y, m, _ = problem(seed, (2, 2, 8, 8), mask_kind)
     with rec.patched("direct.nn.iterdualnet.iterdualnet"), torch.no_grad():
         model(y, m, S)
     fails, n = [], 1
@@ -323,9 +433,14 @@ def site_jointic(seed, centered, mask_kind="random"):
 
     torch.manual_seed(seed)
     fop, bop = real_ops(centered)
-    rec = Recorder(fop, bop)
-    model = JointICNet(rec.forward_operator, rec.backward_operator, 2, False, image_unet_num_filters=2, image_unet_num_pool_layers=2,
-                       kspace_unet_num_filters=2, kspace_unet_num_pool_layers=2, sens_unet_num_filters=2, sens_unet_num_pool_layers=2)
+
+    def build():
+        rec = Recorder(fop, bop)
+        return JointICNet(rec.forward_operator, rec.backward_operator, 2, False, image_unet_num_filters=2, image_unet_num_pool_layers=2,
+                          kspace_unet_num_filters=2, kspace_unet_num_pool_layers=2, sens_unet_num_filters=2,
+                          sens_unet_num_pool_layers=2), rec
+
+    model, rec = persist("jointic", build)
     # an empty mask makes JointICNet divide by max|A^H y| = 0 (NaN by construction): not a data-consistency question
     S, y, m, _ = problem(seed, (1, 2, 8, 8), "random" if mask_kind == "empty" else mask_kind)
     with rec.patched("direct.nn.jointicnet.jointicnet"), torch.no_grad():
@@ -360,9 +475,14 @@ def site_kiki(seed, centered, mask_kind="random"):
 
     torch.manual_seed(seed)
     fop, bop = real_ops(centered)
-    rec = Recorder(fop, bop)
-    model = KIKINet(rec.forward_operator, rec.backward_operator, image_model_architecture="UNET", kspace_model_architecture="CONV",
-                    num_iter=2, image_unet_num_filters=2, image_unet_num_pool_layers=2, kspace_conv_hidden_channels=2, kspace_conv_n_convs=2)
+
+    def build():
+        rec = Recorder(fop, bop)
+        return KIKINet(rec.forward_operator, rec.backward_operator, image_model_architecture="UNET", kspace_model_architecture="CONV",
+                       num_iter=2, image_unet_num_filters=2, image_unet_num_pool_layers=2, kspace_conv_hidden_channels=2,
+                       kspace_conv_n_convs=2), rec
+
+    model, rec = persist("kiki", build)
     S, y, m, _ = problem(seed, (1, 2, 8, 8), mask_kind)
     kout, iout, kin = [], [], []
     hooks = []
@@ -428,10 +548,15 @@ def site_varnet_blocks(seed, centered, mask_kind="random"):
     fails, n = [], 0
     for tag, make in (("varnet", lambda r: EndToEndVarNetBlock(r.forward_operator, r.backward_operator, _ZeroImage())),
                       ("rvn", lambda r: RecurrentVarNetBlock(r.forward_operator, r.backward_operator, 2, 4, 1))):
-        rec = Recorder(fop, bop)
-        blk = make(rec)
-        if tag == "rvn":
-            blk.regularizer = _ZeroRecurrent()
+
+        def build(tag=tag, make=make):
+            rec = Recorder(fop, bop)
+            blk = make(rec)
+            if tag == "rvn":
+                blk.regularizer = _ZeroRecurrent()
+            return blk, rec
+
+        blk, rec = persist("varnet-blocks/" + tag, build)
         lr = 0.75
         with torch.no_grad():
             blk.learning_rate.fill_(lr)
@@ -463,13 +588,16 @@ def site_cirim(seed, centered, mask_kind="random"):
     k = torch.randn(y.shape, generator=g)
     fails, n = [], 0
     for tag in ("cirim", "rim"):
-        rec = Recorder(fop, bop)
         calls = []
-        if tag == "cirim":
-            blk = RIMBlock(rec.forward_operator, rec.backward_operator, depth=1, in_channels=2, hidden_channels=4, time_steps=2,
-                           no_parameter_sharing=False)
-        else:
-            blk = RIM(rec.forward_operator, rec.backward_operator, hidden_channels=4, length=2, depth=1, no_parameter_sharing=False)
+
+        def build(tag=tag):
+            rec = Recorder(fop, bop)
+            if tag == "cirim":
+                return RIMBlock(rec.forward_operator, rec.backward_operator, depth=1, in_channels=2, hidden_channels=4, time_steps=2,
+                                no_parameter_sharing=False), rec
+            return RIM(rec.forward_operator, rec.backward_operator, hidden_channels=4, length=2, depth=1, no_parameter_sharing=False), rec
+
+        blk, rec = persist("cirim-rim/" + tag, build)
         def _lhook(mod, i, o, calls=calls):
             calls.append((tuple(a.detach().clone() for a in i if isinstance(a, torch.Tensor)), o.detach().clone()))
 
@@ -525,7 +653,7 @@ def site_operator_pairs(seed, centered, mask_kind="random"):
     S, y, m, g = problem(seed, (2, 3, 5, 6), mask_kind)
     x = torch.randn(2, 5, 6, 2, generator=g)
     k = torch.randn(y.shape, generator=g)
-    me = _fake_self(fop, bop)
+    me, _ = persist("operator-pairs", lambda: (_fake_self(fop, bop), None))
     Ax, Ahk = ref_A(fop, x, S, m), _sense(bop, torch.where(m == 0, ZERO, k), S)
     fails, n = [], 0
     for tag, cls in (("jointic", JointICNet), ("iterdual", IterDualNet), ("lpd", LPDNet), ("xpd", CrossDomainNetwork), ("engine", MRIModelEngine)):
@@ -560,8 +688,8 @@ def site_vsharp_engine(seed, centered, mask_kind="random"):
     for tag, cls, dims, extra in (("vsharp-engine", VSharpNetEngine, (2, 3), ()), ("vsharp3d-engine", VSharpNet3DEngine, (3, 4), (2,))):
         S, y, m, g = problem(seed, (1, 2, 6, 4), mask_kind, extra_dims=extra)
         x = torch.randn((1,) + extra + (6, 4, 2), generator=g)
-        me = _fake_self(fop, bop, dims)
-        me.model = lambda masked_kspace, sampling_mask, sensitivity_map: [x * 0.5, x]
+        me, _ = persist("vsharp-engines/" + tag, lambda dims=dims: (_fake_self(fop, bop, dims), None))
+        me.model = lambda masked_kspace, sampling_mask, sensitivity_map, x=x: [x * 0.5, x]
         me.compute_sensitivity_map = lambda s_: s_
         data = {"masked_kspace": y, "sampling_mask": m, "sensitivity_map": S}
         imgs, ksp = cls.forward_function(me, data)
@@ -615,8 +743,12 @@ def site_ssl_engines(seed, centered, mask_kind="random"):
     # (VSharpNetJSSLEngine applies the data consistency only in its training branch; in inference it returns
     #  |x| of the network output directly — recorded in SITE_TABLE, nothing to check here)
     for tag, cls in (("ssl", SSLMRIModelEngine), ("jssl", JSSLMRIModelEngine), ("vsharp-ssl", VSharpNetSSLEngine)):
-        rec = Recorder(fop, bop)
-        me = _fake_self(rec.forward_operator, rec.backward_operator)
+
+        def build():
+            rec = Recorder(fop, bop)
+            return _fake_self(rec.forward_operator, rec.backward_operator), rec
+
+        me, rec = persist("ssl-engines/" + tag, build)
         me.device = "cpu"
         me.mixed_precision = False
         me.model = _StubModel(x)
